@@ -103,6 +103,17 @@ CATALOG = [
     ("C11", "extraction-full-confidence", "fire", "operon_ai/organelles/chaperone.py", "                        confidence=0.9,", "                        confidence=1.0,", "C11-R5"),
     # ---- C12
     ("C12", "include-unescaped", "fire", "operon_ai/organelles/ribosome.py", "return self._verbatim(protein.sequence)", "return protein.sequence", "C12-R1"),
+    ("C12", "loop-item-unescaped", "fire", "operon_ai/organelles/ribosome.py", 'part = part.replace(f"{{{{{key}}}}}", self._verbatim(value))', 'part = part.replace(f"{{{{{key}}}}}", str(value))', "C12-R1"),
+    ("C12", "filtered-unescaped", "fire", "operon_ai/organelles/ribosome.py", "return self._verbatim(self.filters[filter_name](value))", "return self.filters[filter_name](value)", "C12-R1"),
+    ("C12", "unescape-before-variables", "fire", "operon_ai/organelles/ribosome.py",
+     "        sequence = self._process_variables(sequence, context, warnings)\n\n        # All passes done: give substituted text its literal braces back\n        sequence = sequence.replace(self._ESCAPED_OPEN, \"{\")",
+     "        sequence = sequence.replace(self._ESCAPED_OPEN, \"{\")\n        sequence = self._process_variables(sequence, context, warnings)", "C12-R1"),
+    ("C12", "unescape-dropped", "fire", "operon_ai/organelles/ribosome.py", "        sequence = sequence.replace(self._ESCAPED_OPEN, \"{\")\n", "", "C12-R1"),
+    ("C12", "strict-after-rendering", "fire", "operon_ai/organelles/ribosome.py", "                if self.strict:\n                    self._errors_count += 1\n                    raise ValueError(msg)\n                warnings.append(msg)",
+     "                warnings.append(msg)", "C12-R2"),
+    ("C12", "simple-unbound-silent", "fire", "operon_ai/organelles/ribosome.py", '            warnings.append(f"Unbound variable: {var_name}")\n            return match.group(0)', "            return match.group(0)", "C12-R2"),
+    ("C12", "marker-dropped", "fire", "operon_ai/organelles/ribosome.py", 'return f"[Unknown template: {template_name}]"', 'return ""', "C12-R2"),
+    ("C12", "last-pass-raw-value", "silent", "operon_ai/organelles/ribosome.py", "            return self._verbatim(context.get(var_name, \"\"))", "            return self._verbatim(str(context.get(var_name, \"\")))", None),
     # ---- C04
     ("C04", "charge-off-by-one", "fire", "operon_ai/state/metabolism.py", "                if energy_type == EnergyType.ATP:\n                    self.atp -= cost\n                elif energy_type == EnergyType.GTP:",
      "                if energy_type == EnergyType.ATP:\n                    self.atp -= cost - 1\n                elif energy_type == EnergyType.GTP:", "C04-R4"),
